@@ -103,33 +103,124 @@ pub fn term(kind: Kind, prods: &[&[Atom]], target: Atom) -> Term {
 
 /// Linear combination of current-row and next-row columns plus a constant (mirrors
 /// `starky::lookup::Column`, as plain data so that the oracle can evaluate it itself).
+/// Which public `Column` constructor builds the library object. The reference semantics is always
+/// the plain data (lin, next, konst); the constructor is only the route taken through the library's
+/// API, so that every public constructor is exercised against the same independent meaning.
+#[derive(Clone, Copy, Debug, Default, PartialEq, Eq)]
+pub enum Ctor {
+    /// `linear_combination_and_next_row_with_constant` (or `constant` when there are no columns)
+    #[default]
+    General,
+    Single,
+    Singles,
+    SingleNext,
+    SinglesNext,
+    LinComb,
+    LinCombConst,
+    LeBits,
+    LeBitsConst,
+    LeBytes,
+    Sum,
+    Zero,
+    One,
+}
+
 #[derive(Clone, Debug, Default)]
 pub struct ColSpec {
     pub lin: Vec<(usize, u64)>,
     pub next: Vec<(usize, u64)>,
     pub konst: u64,
+    pub ctor: Ctor,
 }
 
 impl ColSpec {
     pub fn single(c: usize) -> Self {
-        ColSpec { lin: vec![(c, 1)], next: vec![], konst: 0 }
+        ColSpec { lin: vec![(c, 1)], next: vec![], konst: 0, ctor: Ctor::General }
     }
     pub fn single_next(c: usize) -> Self {
-        ColSpec { lin: vec![], next: vec![(c, 1)], konst: 0 }
+        ColSpec { lin: vec![], next: vec![(c, 1)], konst: 0, ctor: Ctor::General }
     }
     pub fn constant(k: u64) -> Self {
-        ColSpec { lin: vec![], next: vec![], konst: k }
+        ColSpec { lin: vec![], next: vec![], konst: k, ctor: Ctor::General }
     }
     pub fn lin(lin: &[(usize, u64)], konst: u64) -> Self {
-        ColSpec { lin: lin.to_vec(), next: vec![], konst }
+        ColSpec { lin: lin.to_vec(), next: vec![], konst, ctor: Ctor::General }
+    }
+    pub fn via(mut self, ctor: Ctor) -> Self {
+        self.ctor = ctor;
+        self
     }
     pub fn to_column(&self) -> Column<F> {
         let f = |v: &Vec<(usize, u64)>| v.iter().map(|&(c, k)| (c, F::from_canonical_u64(k % P))).collect::<Vec<_>>();
         let k = F::from_canonical_u64(self.konst % P);
-        if self.lin.is_empty() && self.next.is_empty() {
-            Column::constant(k)
-        } else {
-            Column::linear_combination_and_next_row_with_constant(f(&self.lin), f(&self.next), k)
+        let cols = |v: &Vec<(usize, u64)>| v.iter().map(|&(c, _)| c).collect::<Vec<usize>>();
+        let weights = |v: &Vec<(usize, u64)>, base: u64| {
+            let mut w = 1u64;
+            for &(_, k) in v {
+                assert_eq!(k % P, w % P, "ColSpec weights do not match the constructor");
+                w = mulm(w, base);
+            }
+        };
+        match self.ctor {
+            Ctor::General => {
+                if self.lin.is_empty() && self.next.is_empty() {
+                    Column::constant(k)
+                } else {
+                    Column::linear_combination_and_next_row_with_constant(f(&self.lin), f(&self.next), k)
+                }
+            }
+            Ctor::Single => {
+                assert!(self.lin.len() == 1 && self.lin[0].1 == 1 && self.next.is_empty() && self.konst == 0);
+                Column::single(self.lin[0].0)
+            }
+            Ctor::Singles => {
+                assert!(self.lin.len() == 1 && self.lin[0].1 == 1 && self.next.is_empty() && self.konst == 0);
+                Column::singles([self.lin[0].0]).next().unwrap()
+            }
+            Ctor::SingleNext => {
+                assert!(self.next.len() == 1 && self.next[0].1 == 1 && self.lin.is_empty() && self.konst == 0);
+                Column::single_next_row(self.next[0].0)
+            }
+            Ctor::SinglesNext => {
+                assert!(self.next.len() == 1 && self.next[0].1 == 1 && self.lin.is_empty() && self.konst == 0);
+                Column::singles_next_row([self.next[0].0]).next().unwrap()
+            }
+            Ctor::LinComb => {
+                assert!(self.next.is_empty() && self.konst == 0);
+                Column::linear_combination(f(&self.lin))
+            }
+            Ctor::LinCombConst => {
+                assert!(self.next.is_empty());
+                Column::linear_combination_with_constant(f(&self.lin), k)
+            }
+            Ctor::LeBits => {
+                assert!(self.next.is_empty() && self.konst == 0);
+                weights(&self.lin, 2);
+                Column::le_bits(cols(&self.lin))
+            }
+            Ctor::LeBitsConst => {
+                assert!(self.next.is_empty());
+                weights(&self.lin, 2);
+                Column::le_bits_with_constant(cols(&self.lin), k)
+            }
+            Ctor::LeBytes => {
+                assert!(self.next.is_empty() && self.konst == 0);
+                weights(&self.lin, 256);
+                Column::le_bytes(cols(&self.lin))
+            }
+            Ctor::Sum => {
+                assert!(self.next.is_empty() && self.konst == 0);
+                weights(&self.lin, 1);
+                Column::sum(cols(&self.lin))
+            }
+            Ctor::Zero => {
+                assert!(self.lin.is_empty() && self.next.is_empty() && self.konst == 0);
+                Column::zero()
+            }
+            Ctor::One => {
+                assert!(self.lin.is_empty() && self.next.is_empty() && self.konst == 1);
+                Column::one()
+            }
         }
     }
     /// Reference evaluation at `row` of a row-major trace (next row is cyclic).
@@ -155,9 +246,13 @@ pub struct FilterSpec {
 
 impl FilterSpec {
     pub fn simple(c: usize) -> Self {
-        FilterSpec { products: vec![], constants: vec![ColSpec::single(c)] }
+        FilterSpec { products: vec![], constants: vec![ColSpec::single(c).via(Ctor::Single)] }
     }
     pub fn to_filter(&self) -> Filter<F> {
+        // `Filter::new_simple` is the route for the one-column shape built by `FilterSpec::simple`
+        if self.products.is_empty() && self.constants.len() == 1 && self.constants[0].ctor == Ctor::Single {
+            return Filter::new_simple(self.constants[0].to_column());
+        }
         Filter::new(
             self.products.iter().map(|(a, b)| (a.to_column(), b.to_column())).collect(),
             self.constants.iter().map(|c| c.to_column()).collect(),
@@ -1652,6 +1747,99 @@ fn gen_lk_two(n: usize, ch: usize) -> (Rows, Vec<u64>) {
     (from_cols(vec![looking_col(&t0, 0, ch), t0, vec![0; n], looking_col(&t1, 1, ch), t1, vec![0; n]]), vec![])
 }
 
+/// gen_lk3f with looking column 2 rotated down by one row: the declared lookup reads it on the NEXT row.
+fn gen_lk3f_next(n: usize, ch: usize) -> (Rows, Vec<u64>) {
+    let (mut rows, pis) = gen_lk3f(n, ch);
+    let old: Vec<u64> = rows.iter().map(|r| r[2]).collect();
+    for r in 0..n {
+        rows[(r + 1) % n][2] = old[r];
+    }
+    (rows, pis)
+}
+/// Looking value split over three columns with weights (1, base, base^2); table = counter.
+fn gen_lk_split<const BASE: u64>(n: usize, ch: usize) -> (Rows, Vec<u64>) {
+    let t = table_col(TableKind::Counter, n);
+    let v = looking_col(&t, 0, ch);
+    let (mut a, mut b, mut c) = (vec![], vec![], vec![]);
+    for (r, &x) in v.iter().enumerate() {
+        if BASE == 1 {
+            // x = a + b + c with field-sized summands
+            let s = 7 + r as u64;
+            a.push(x);
+            b.push(s);
+            c.push(negm(s));
+        } else {
+            a.push(x % BASE);
+            b.push((x / BASE) % BASE);
+            c.push(x / (BASE * BASE));
+        }
+    }
+    (from_cols(vec![a, b, c, t, vec![0; n], filler(n, 5, ch)]), vec![])
+}
+fn gen_lk_lin0(n: usize, ch: usize) -> (Rows, Vec<u64>) {
+    let a: Vec<u64> = (0..n).map(|r| ((r * r + ch) % n) as u64).collect();
+    let t: Vec<u64> = (0..n as u64).map(|r| 2 * r).collect();
+    (from_cols(vec![a, t, vec![0; n]]), vec![])
+}
+/// Filter identically zero: the looking column holds values that are NOT in the table.
+fn gen_lk1_filter_zero(n: usize, ch: usize) -> (Rows, Vec<u64>) {
+    let t = table_col(TableKind::Counter, n);
+    let absent: Vec<u64> = (0..n as u64).map(|r| (1 << 40) + r * 3 + ch as u64).collect();
+    (from_cols(vec![absent, t, vec![0; n]]), vec![])
+}
+
+/// Members that reach every public `Column` / `Filter` constructor (same traces and meanings as the
+/// members above, another route through the API).
+fn constructor_members() -> Vec<Member> {
+    let m = |def: Def, gen: Gen| Member { def, gen };
+    let s = |c: usize, k: Ctor| ColSpec::single(c).via(k);
+    let mut v = Vec::new();
+    // singular / plural constructors
+    let mut l = plain_lookup(&[0, 1], 2, 3);
+    l.columns = vec![s(0, Ctor::Singles), s(1, Ctor::Single)];
+    l.table = s(2, Ctor::Single);
+    l.freq = s(3, Ctor::Singles);
+    v.push(m(lookup_def("lkc_singles_d2", 4, 2, vec![l], vec![]), gen_lk2));
+    // next-row constructors under a filter that is not always on
+    for (name, k) in [("lkc_next_plural_d3", Ctor::SinglesNext), ("lkc_next_single_d3", Ctor::SingleNext)] {
+        let mut l3 = plain_lookup(&[0, 1, 2], 3, 4);
+        l3.columns[2] = ColSpec::single_next(2).via(k);
+        l3.filters[2] = Some(FilterSpec { products: vec![], constants: vec![ColSpec::single(5)] }); // Filter::new route (FilterSpec::simple takes new_simple)
+        v.push(m(lookup_def(name, 6, 3, vec![l3], vec![]), gen_lk3f_next));
+    }
+    // weighted combinations
+    for (name, k, base, gen) in [
+        ("lkc_le_bits_d2", Ctor::LeBits, 2u64, gen_lk_split::<2> as Gen),
+        ("lkc_le_bytes_d3", Ctor::LeBytes, 256, gen_lk_split::<256> as Gen),
+        ("lkc_sum_d2", Ctor::Sum, 1, gen_lk_split::<1> as Gen),
+    ] {
+        let mut l = plain_lookup(&[0], 3, 4);
+        l.columns[0] = ColSpec::lin(&[(0, 1), (1, base), (2, mulm(base, base))], 0).via(k);
+        v.push(m(lookup_def(name, 6, if name.ends_with("d3") { 3 } else { 2 }, vec![l], vec![]), gen));
+    }
+    {
+        // le_bits_with_constant: value - 1 split in bits, constant 1 added back
+        let mut l = plain_lookup(&[0], 1, 2);
+        l.columns[0] = ColSpec::lin(&[(0, 1)], 3).via(Ctor::LeBitsConst);
+        l.table = ColSpec::lin(&[(1, 1)], 3).via(Ctor::LinCombConst);
+        v.push(m(lookup_def("lkc_le_bits_const_d2", 3, 2, vec![l], vec![]), gen_lk1_counter));
+    }
+    let mut l = plain_lookup(&[0], 1, 2);
+    l.columns[0] = ColSpec::lin(&[(0, 2)], 0).via(Ctor::LinComb);
+    v.push(m(lookup_def("lkc_lincomb_d2", 3, 2, vec![l], vec![]), gen_lk_lin0));
+    let mut l = plain_lookup(&[0], 1, 2);
+    l.columns[0] = ColSpec::lin(&[(0, 2)], 3).via(Ctor::LinCombConst);
+    v.push(m(lookup_def("lkc_lincomb_const_d3", 3, 3, vec![l], vec![]), gen_lk_lin));
+    // constant filters
+    let mut l = plain_lookup(&[0], 1, 2);
+    l.filters[0] = Some(FilterSpec { products: vec![], constants: vec![ColSpec::constant(1).via(Ctor::One)] });
+    v.push(m(lookup_def("lkc_filter_one_d2", 3, 2, vec![l], vec![]), gen_lk1_counter));
+    let mut l = plain_lookup(&[0], 1, 2);
+    l.filters[0] = Some(FilterSpec { products: vec![], constants: vec![ColSpec::constant(0).via(Ctor::Zero)] });
+    v.push(m(lookup_def("lkc_filter_zero_d2", 3, 2, vec![l], vec![]), gen_lk1_filter_zero));
+    v
+}
+
 fn lookup_def(name: &str, cols: usize, degree: usize, lookups: Vec<LookupSpec>, terms: Vec<Term>) -> Def {
     Def { name: name.to_string(), cols, pis: 0, degree, terms, lookups, ctl: false }
 }
@@ -1721,5 +1909,6 @@ pub fn lookup_family() -> Vec<Member> {
         ),
         gen_lk1_counter,
     ));
+    v.extend(constructor_members());
     v
 }
